@@ -1,11 +1,15 @@
 package main
 
 import (
+	"context"
 	crand_ "crypto/rand"
 	"fmt"
 	"strings"
+	"sync"
+	"sync/atomic"
 	"time"
 
+	"example.com/scion-time/core/client"
 	"example.com/scion-time/net/ntp"
 	"example.com/scion-time/net/nts"
 	"example.com/scion-time/net/ntske"
@@ -402,6 +406,18 @@ func genScript(r *lib.Rng, shape int) []step {
 			add(0, actDeliver)
 		}
 		add(0, actDeliver)
+	case 13: // key exchanges that hand out fewer than eight cookies, or cookies of other lengths (too long ones too)
+		if r.Bool() {
+			add(0, actDeliver)
+			for i := 0; i < 8; i++ {
+				add(0, actDropReq)
+			}
+		}
+		add(0, actKeOdd)
+		for i := int(r.Range(2, 10)); i > 0; i-- {
+			add(0, lib.Pick(r, actDeliver, actDeliver, actDropReply, actKeOdd))
+		}
+		add(0, actDeliver)
 	case 7: // one real timeout
 		add(0, actDeliver)
 		add(0, actTimeout)
@@ -426,11 +442,11 @@ func genHistories(r *lib.Rng, tier string) (scripts [][]step) {
 		s = append(s, step{action: actDeliver}, step{action: actDeliver}, step{action: actDeliver})
 		scripts = append(scripts, s)
 	}
-	for _, sh := range []int{8, 9, 10, 11, 11, 11, 11, 11, 11, 12, 12} {
+	for _, sh := range []int{8, 9, 10, 11, 11, 11, 11, 11, 11, 12, 12, 13, 13, 13, 13, 13, 13} {
 		scripts = append(scripts, genScript(r, sh))
 	}
 	for i := 0; i < n; i++ {
-		shape := lib.Pick(r, 0, 1, 1, 1, 2, 2, 3, 3, 3, 4, 4, 5, 6, 6, 8, 8, 9, 10, 10, 11, 11, 11, 12)
+		shape := lib.Pick(r, 0, 1, 1, 1, 2, 2, 3, 3, 3, 4, 4, 5, 6, 6, 8, 8, 9, 10, 10, 11, 11, 11, 12, 13, 13)
 		if i%40 == 7 {
 			shape = 7
 		}
@@ -565,27 +581,11 @@ func (e *env) runSrv(args string) (tags, a, outs string) {
 		o.replies = e.toServer(req)
 		tags += ",ip"
 	}
+	var seenBefore [][]byte
 	if len(o.replies) > 0 {
-		r := o.replies[0]
-		if pos, nonce, ct, ok := authParts(r); ok {
-			o.repNonce = nonce
-			if p, ok := sivOpen(s2c, nonce, ct, r[:pos]); ok {
-				o.repAuthOK = true
-				o.repPlain = p
-				o.repCT = sivSeal(s2c, nonce, p, r[:pos])
-				for q := 0; q+4 <= len(p); {
-					l := int(p[q+2])<<8 | int(p[q+3])
-					if l < 4 || q+l > len(p) {
-						break
-					}
-					if p[q] == 0x02 && p[q+1] == 0x04 {
-						f, _ := e.cookieFacts(p[q+4 : q+l])
-						o.repCookies = append(o.repCookies, f)
-					}
-					q += l
-				}
-			}
-		}
+		var bs [][]byte
+		o.repAuthOK, o.repNonce, o.repCT, o.repPlain, o.repCookies, bs = e.replyFacts(o.replies[0], s2c)
+		seenBefore = e.noteIssued(bs)
 	}
 	rep := lib.B(nil)
 	if len(o.replies) > 0 {
@@ -597,7 +597,7 @@ func (e *env) runSrv(args string) (tags, a, outs string) {
 		tags += ",nt"
 	}
 	return tags, a, lib.L(lib.I(1), lib.B(req), lib.I(int64(len(o.replies))), rep, lib.B(o.repNonce), lib.B(o.repCT),
-		lib.Bool(o.repAuthOK), lib.B(o.repPlain), lib.L(o.repCookies...), lib.B(c2s), lib.B(s2c), lib.I(e.noteCurrent()), lib.Bool(o.openable), lib.I(warm))
+		lib.Bool(o.repAuthOK), lib.B(o.repPlain), lib.L(o.repCookies...), lib.B(c2s), lib.B(s2c), lib.I(e.noteCurrent()), lib.Bool(o.openable), lib.I(warm), bl(seenBefore))
 }
 
 func genSrv(r *lib.Rng, tier string) (js []job) {
@@ -662,7 +662,141 @@ func genSCIONHistories(r *lib.Rng, tier string) (scripts [][]step) {
 		scripts = append(scripts, s)
 	}
 	for i := 0; i < n; i++ {
-		scripts = append(scripts, genScript(r, lib.Pick(r, 0, 0, 1, 1, 2, 3, 4, 5, 8, 9, 11, 12)))
+		scripts = append(scripts, genScript(r, lib.Pick(r, 0, 0, 1, 1, 2, 3, 3, 4, 5, 8, 9, 10, 10, 11, 12)))
 	}
 	return scripts
+}
+
+// ---- c11.conc: overlapping calls on one fetcher (Fetcher.FetchData from several goroutines) ----
+
+// args: [rounds goroutines]
+func (e *env) runConc(args string) (tags, a, outs string) {
+	t := strings.Fields(strings.NewReplacer("[", " ", "]", " ").Replace(args))
+	rounds, gs := int(lib.ParseI(t[0])), int(lib.ParseI(t[1]))
+	x := e.newClient(false)
+	ctx := context.Background()
+	if _, err := x.fetcher.FetchData(ctx); err != nil { // the key exchange
+		fatal("key exchange: %v", err)
+	}
+	// cookies are written as 4-byte numbers (in order of first appearance): the records stay small
+	ids := map[string]uint32{}
+	idl := func(cs [][]byte) string {
+		it := make([]string, len(cs))
+		for i, c := range cs {
+			n, ok := ids[string(c)]
+			if !ok {
+				n = uint32(len(ids) + 1)
+				ids[string(c)] = n
+			}
+			if c == nil {
+				n = 0
+			}
+			it[i] = lib.B([]byte{byte(n >> 24), byte(n >> 16), byte(n >> 8), byte(n)})
+		}
+		return lib.L(it...)
+	}
+	var rs []string
+	for r := 0; r < rounds; r++ {
+		for len(x.fetcher.VerifData().Cookie) < 2*gs {
+			c := make([]byte, 124)
+			crand(c)
+			x.fetcher.StoreCookie(c)
+		}
+		before := x.fetcher.VerifData().Cookie
+		heads := make([][]byte, gs)
+		var ready atomic.Int32
+		var wg sync.WaitGroup
+		for i := 0; i < gs; i++ {
+			wg.Add(1)
+			go func(i int) {
+				defer wg.Done()
+				ready.Add(1)
+				for int(ready.Load()) < gs { // all calls start together
+				}
+				d, err := x.fetcher.FetchData(ctx)
+				if err == nil && len(d.Cookie) > 0 {
+					heads[i] = d.Cookie[0]
+				}
+			}(i)
+		}
+		wg.Wait()
+		after := x.fetcher.VerifData().Cookie
+		rs = append(rs, lib.L(idl(before), idl(heads), idl(after)))
+	}
+	return "conc,nt", args, lib.L(rs...)
+}
+
+// ---- c11.ilv: the IP client in interleaved mode: up to three exchanges per call, each with its own cookie ----
+
+// args: [a1 a2 ...] one number per call: 0 every reply passes, 1 the reply to the call's first request is lost,
+// 2 the reply to its second request is lost, 3 its first request is lost
+func (e *env) runIlv(args string) (tags, a, outs string) {
+	t := strings.Fields(strings.NewReplacer("[", " ", "]", " ").Replace(args))
+	x := e.newClient(false)
+	x.c.InterleavedMode = true
+	var calls []string
+	maxReq := 0
+	for _, at := range t {
+		act := int(lib.ParseI(at))
+		ctx, cancel := context.WithTimeout(context.Background(), waitLong)
+		done := make(chan error, 1)
+		go func() {
+			_, _, err := client.MeasureClockOffsetIP(ctx, e.log, x.c, x.local, x.remote)
+			done <- err
+		}()
+		var reqs [][]byte
+		buf := make([]byte, 4096)
+		var cerr error
+		for finished := false; !finished; {
+			x.sock.SetReadDeadline(time.Now().Add(20 * time.Millisecond))
+			n, caddr, err := x.sock.ReadFromUDP(buf)
+			if err != nil {
+				select {
+				case cerr = <-done:
+					finished = true
+				default:
+				}
+				continue
+			}
+			req := append([]byte(nil), buf[:n]...)
+			reqs = append(reqs, req)
+			k := len(reqs)
+			lostReq := act == 3 && k == 1
+			lostReply := (act == 1 && k == 1) || (act == 2 && k == 2)
+			if !lostReq {
+				rs := e.toServer(req)
+				if len(rs) > 0 {
+					e.noteCurrent()
+					if !lostReply {
+						x.sock.WriteToUDP(rs[0], caddr)
+					}
+				}
+			}
+			x.sock.WriteToUDP(junk(), caddr)
+			x.sock.WriteToUDP(junk(), caddr)
+		}
+		cancel()
+		if len(reqs) > maxReq {
+			maxReq = len(reqs)
+		}
+		d := x.fetcher.VerifData()
+		calls = append(calls, lib.L(bl(reqs), bl(d.Cookie), lib.Bool(cerr != nil)))
+	}
+	tags = fmt.Sprintf("ilv,nt,ilv-max%d", maxReq)
+	return tags, args, lib.L(calls...)
+}
+
+func genIlv(r *lib.Rng, tier string) (js []job) {
+	n := 12
+	if tier == "thorough" {
+		n = 120
+	}
+	for i := 0; i < n; i++ {
+		var it []string
+		for j := int(r.Range(4, 14)); j > 0; j-- {
+			it = append(it, lib.I(int64(lib.Pick(r, 0, 0, 0, 1, 2, 2, 3))))
+		}
+		js = append(js, job{"c11.ilv", lib.L(it...)})
+	}
+	return js
 }
